@@ -84,6 +84,17 @@ def planChangeFallsBack (br : BR) (br' : BR) : Bool :=
     br'.status.batchState = .upgrading && !br'.status.hasReadyTime && br'.status.hash = .same
   else true
 
+/-- C07: the executor settles — with the batch's pods in place, `Verifying` becomes `Ready`, and a `Ready`
+    batch whose partition asks for no more is left exactly as it is (no write, no state flip). -/
+def executorSettles (br : BR) (wl : Option Workload) (br' : BR) (wl' : Option Workload) : Bool :=
+  if ¬ stopped br wl ∧ br.status.phase = .progressing ∧ batchReadyNow br wl then
+    (if br.status.batchState = .verifying then
+       br'.status.batchState = .ready && br'.status.hasReadyTime && decide (br'.status.currentBatch = br.status.currentBatch) && wl' == wl
+     else if br.status.batchState = .ready ∧ isPartitioned br then
+       br'.status == br.status && wl' == wl
+     else true)
+  else true
+
 /-- The executor may panic only on a plan without batches / a negative current batch
     (not reachable from a Rollout the validating webhook accepts: steps are non-empty). -/
 def panicAllowed (br : BR) : Bool :=
@@ -91,7 +102,10 @@ def panicAllowed (br : BR) : Bool :=
 
 def stepOracles (br : BR) (wl : Option Workload) (br' : Option BR) (wl' : Option Workload) : List (String × Bool) :=
   let common := [("C18.br_gone_only_when_completed", goneOnlyWhenCompleted br br'),
-                 ("C06.no_act_before_persist", noActBeforePersist br wl wl')]
+                 ("C06.no_act_before_persist", noActBeforePersist br wl wl'),
+                 -- C01: the workload is never written from a status (batch index) that is not persisted yet
+                 ("C01.no_act_before_persist", noActBeforePersist br wl wl'),
+                 ("C11.no_act_before_persist", noActBeforePersist br wl wl')]
   match br' with
   | none => common
   | some b =>
@@ -104,6 +118,7 @@ def stepOracles (br : BR) (wl : Option Workload) (br' : Option BR) (wl' : Option
      ("C11.completed_means_released", completedMeansReleased br b wl'),
      ("C18.br_completed_means_released", completedMeansReleased br b wl'),
      ("C11.falls_back", fallsBack br wl b),
-     ("C11.plan_change_falls_back", planChangeFallsBack br b)]
+     ("C11.plan_change_falls_back", planChangeFallsBack br b),
+     ("C07.executor_settles", executorSettles br wl b wl')]
 
 end RV.Oracle.Executor
